@@ -669,3 +669,18 @@ Section Options.
     rewrite (pv_node_plain o1 o2 _ (H _ eq_refl)). reflexivity.
   Qed.
 End Options.
+
+(* ---------- contours without points are not written ---------- *)
+Lemma filter_idem {A} (f : A -> bool) l : filter f (filter f l) = filter f l.
+Proof.
+  induction l as [|x l IH]; [reflexivity|]. cbn [filter]. destruct (f x) eqn:E; [|exact IH].
+  cbn [filter]. rewrite E, IH. reflexivity.
+Qed.
+(** the writer's output does not depend on the empty contours of the glyph — for ALL glyphs *)
+Theorem encode_drop_empty ff ff3 fi fh o g :
+  encode_glif ff ff3 fi fh o (drop_empty g) = encode_glif ff ff3 fi fh o g.
+Proof.
+  unfold encode_glif, enc_lib, written_lib, dump_object_libs, enc_outline, drop_empty.
+  cbn [gname gwidth gheight gcps gnote gimage gguides ganchors gcomps gcontours glib].
+  rewrite !filter_idem. reflexivity.
+Qed.
